@@ -319,12 +319,15 @@ func runC15(r *Run) {
 	// the token-info endpoint
 	setMode(true)
 	good, _ := security.GenerateUserToken(context.Background(), "alice")
+	expiredTok := craft(encKey, signKey, true, jwt.Claims{Subject: "alice", Issuer: "rdpgw", Expiry: jwt.NewNumericDate(now.Add(-time.Hour))}, jose.A128CBC_HS256)
+	otherIssTok := craft(encKey, signKey, true, jwt.Claims{Subject: "alice", Issuer: "someone-else", Expiry: jwt.NewNumericDate(now.Add(time.Hour))}, jose.A128CBC_HS256)
 	type treq struct {
 		method, query string
 	}
 	reqs := []treq{{"GET", "access_token=" + url.QueryEscape(good)}, {"GET", ""}, {"GET", "access_token="}, {"GET", "access_token=garbage"}, {"GET", "other=1"},
 		{"POST", "access_token=" + url.QueryEscape(good)}, {"PUT", "access_token=" + url.QueryEscape(good)}, {"HEAD", "access_token=" + url.QueryEscape(good)}, {"DELETE", ""},
-		{"GET", "access_token=&access_token=" + url.QueryEscape(good)}, {"GET", "access_token=" + url.QueryEscape(good[:len(good)-3])}}
+		{"GET", "access_token=&access_token=" + url.QueryEscape(good)}, {"GET", "access_token=" + url.QueryEscape(good[:len(good)-3])},
+		{"GET", "access_token=" + url.QueryEscape(expiredTok)}, {"GET", "access_token=" + url.QueryEscape(otherIssTok)}}
 	var tl []string
 	var tst []int
 	var tbody []string
